@@ -201,9 +201,7 @@ Definition align_logs (es : list event) (cs : list sim_ev) (oracle : list bool *
       if negb (length es =? length cs)%nat then Err E_DIST0_LEN else Ok (zip_pairs es cs)
   | _ =>
       if negb (length de =? length es)%nat || negb (length dc =? length cs)%nat then Panic
-      else if negb (length es - count_true de =? length cs - count_true dc)%nat
-           || (length es <? count_true de)%nat || (length cs <? count_true dc)%nat
-      then Err E_COUNTS
+      else if negb (length es - count_true de =? length cs - count_true dc)%nat then Err E_COUNTS
       else interleave (flag de es) (flag dc cs)
   end).
 
